@@ -148,7 +148,19 @@ fn gen_plan(rng: &mut Rng, cfg: &Cfg, calls: u32, total_bytes: u64, reader: bool
         };
         p.capacity = Some(c);
     }
-    let _ = reader;
+    if reader {
+        // one reader in eight is a real std adaptor stacked on the simulated reader; one in ten answers a call made
+        // after the stream was drained with WouldBlock
+        if rng.chance(1, 8) {
+            p.flavour = rng.range(1, 3) as u8;
+            p.cut = rng.below(total_bytes.max(1) + 1).min(u32::MAX as u64) as u32;
+        }
+        if rng.chance(1, 10) {
+            p.strict_end = true;
+        }
+    } else if rng.chance(1, 6) {
+        p.gather = true;
+    }
     p
 }
 
@@ -247,7 +259,9 @@ pub fn generate(rng: &mut Rng, tier: &str, _idx: u64) -> Scenario {
                 Op::Snapshot
             }
             9 => {
-                if rng.chance(1, 2) {
+                if rng.chance(1, 4) {
+                    Op::CloneFrom(rng.below(snaps.max(1) as u64) as u32)
+                } else if rng.chance(1, 2) {
                     Op::CmpSnap(rng.below(snaps.max(1) as u64) as u32)
                 } else {
                     Op::SnapQuery(rng.below(snaps.max(1) as u64) as u32, gen_query(rng, &cfg, &known))
